@@ -171,6 +171,16 @@ PROPS = {
         "x mid x payload) against the reference codec. distinct non-trivial = distinct canonical states.",
         ["oc", "rel"], ["oc", "rel"],
     ),
+    "C19": P(
+        "exploration",
+        "Named values exhaustively (7 methods, 27 statuses, 60 content formats, observe actions; all 256 code bytes through both "
+        "getters; all 65536 raw content-format ids; raw Observe values <= 6 bytes); every path string <= 6 (7) over {/ a . é} x 3 "
+        "prior states; every setter/raw-add operation sequence of length <= 3 (4) over 18 operations (histories: set after set, "
+        "set after raw add, after clear_all); coap-message 0.2 and 0.3 reader/writer/mutator views over every ordered selection of "
+        "<= 4 of 7 options x payload x codes. Every history is executed on a fresh real object and all views are compared with the "
+        "value of the last setter of each kind. distinct non-trivial = distinct (kind x shape) buckets.",
+        ["oc"], ["oc", "nostd"],
+    ),
 }
 
 
